@@ -365,11 +365,11 @@ func runC18(c *fw.Ctx, cs fw.Case) {
 
 func init() {
 	fw.Register(&fw.Monitor{
-		ID:        "C18",
-		Level:     "exploration",
-		RaceKinds: map[string]bool{"concurrent": true, "engines": true},
-		Technique: "runtime differential monitor: the same search repeated cold / after unrelated searches / with other hash seeds / alongside 4-11 concurrently searching engines (race detector on) must give identical (score, PV, nodes); engine game snapshot before/after analysis",
-		Rule: "direct searches: generated roots x 10 configurations, repeated after unrelated searches on the same search object and on boards with other zobrist seeds; engines: the four bundled recipes through Engine.Reset/Move/Analyze to a depth limit: PV stream (depth, score, moves, nodes per iteration) compared across repetition, hash seed, equal-seed noise, fresh tables; concurrent: probe engine alone vs. alongside other engines in the same process under the race detector; Position() and board snapshot before/after Analyze..Halt; distinct = distinct (configuration/engine, depth, history)",
+		ID:          "C18",
+		Level:       "exploration",
+		RaceKinds:   map[string]bool{"concurrent": true, "engines": true},
+		Technique:   "runtime differential monitor: the same search repeated cold / after unrelated searches / with other hash seeds / alongside 4-11 concurrently searching engines (race detector on) must give identical (score, PV, nodes); engine game snapshot before/after analysis",
+		Rule:        "direct searches: generated roots x 10 configurations, repeated after unrelated searches on the same search object and on boards with other zobrist seeds; engines: the four bundled recipes through Engine.Reset/Move/Analyze to a depth limit: PV stream (depth, score, moves, nodes per iteration) compared across repetition, hash seed, equal-seed noise, fresh tables; concurrent: probe engine alone vs. alongside other engines in the same process under the race detector; Position() and board snapshot before/after Analyze..Halt; distinct = distinct (configuration/engine, depth, history)",
 		Assumptions: []string{"noise off and no table carried over, as the property states; with a fresh table only equal-seed engines are compared on node counts"},
 		Setup:       validateOracle,
 		Timeout:     minutes(15, 120),
